@@ -241,6 +241,7 @@ func (ps *Pieces) AddData(index uint32, begin uint32, data []byte, peer uint32) 
 		return
 	}
 
+	verifYield("AddData.lock", index)
 	ps.mu.Lock()
 	defer ps.mu.Unlock()
 
@@ -313,6 +314,7 @@ func (ps *Pieces) Finalise(index uint32, h hash.Hash) (done bool, peers []uint32
 		return
 	}
 
+	verifYield("Finalise.lock", index)
 	ps.mu.Lock()
 	defer ps.mu.Unlock()
 
@@ -334,10 +336,12 @@ func (ps *Pieces) Finalise(index uint32, h hash.Hash) (done bool, peers []uint32
 
 	ps.pieces[index].setState(0, stateBusy)
 	ps.mu.Unlock()
+	verifYield("Finalise.hash", index)
 
 	hsh := sha1.Sum(data)
 	hh := hash.Hash(hsh[:])
 
+	verifYield("Finalise.relock", index)
 	ps.mu.Lock()
 	peers = ps.pieces[index].peers
 	ps.pieces[index].peers = nil
@@ -363,6 +367,7 @@ func (ps *Pieces) del(p uint32, force bool) (done bool, complete bool) {
 			return
 		}
 		ps.mu.Unlock()
+		verifYield("del.wait", p)
 		t := 10 * time.Microsecond
 		for ps.pieces[p].Busy() {
 			time.Sleep(t)
@@ -370,6 +375,7 @@ func (ps *Pieces) del(p uint32, force bool) (done bool, complete bool) {
 				t = t * 2
 			}
 		}
+		verifYield("del.relock", p)
 		ps.mu.Lock()
 	}
 
@@ -472,6 +478,7 @@ func (ps *Pieces) Expire(bytes int64, available []uint16, f func(index uint32)) 
 		return cmp.Compare(t[j], t[i])
 	})
 
+	verifYield("Expire.bytes", 0)
 	todo := ps.Bytes() - bytes
 
 	count := 0
@@ -480,6 +487,7 @@ func (ps *Pieces) Expire(bytes int64, available []uint16, f func(index uint32)) 
 		if todo <= 0 {
 			break
 		}
+		verifYield("Expire.piece", index)
 		ps.mu.Lock()
 		done, complete := ps.del(index, false)
 		ps.mu.Unlock()
